@@ -1,6 +1,6 @@
 //! C04: Turtle / TriG output (plain or pretty) parses back to an isomorphic dataset.
 //!
-//! Three streams of cases, all derived from --seed (case index mod 8):
+//! Streams of cases, all derived from --seed (the first three by case index mod 8):
 //!  * shape (indices = 0..5 mod 8): a dataset assembled from graph-SHAPE fragments (blank cycles with and
 //!    without tails, self-loops, shared / unreferenced / object-only blank nodes, nested property lists,
 //!    well-formed / branching / cyclic / shared-tail / unowned / improper lists, lists whose owner is one of
@@ -33,6 +33,21 @@
 //!    near-miss lexical forms of the shorthands, local names with every PN_LOCAL_ESC character, `%` sequences,
 //!    leading / trailing `.` `-` `:`, non-ASCII and astral code points, labels with inner dots, relative IRIs,
 //!    rdf:nil, variables (text compared, reader must reject), and inputs OUTSIDE the hypotheses (text compared only).
+//!
+//!  * deep (indices 2_000_000 + k: a directed list, then n/80 random ones): DEEP and WIDE trees of blank nodes -- one chain of every
+//!    length 61..68 nested in each of the ways a blank node can be nested (object, rdf:type object, item of a collection, of a nested
+//!    collection, object of an annotation, below a quoted triple, below a blank node that is the subject of a quoted triple), several
+//!    branches deeper than the writer's nesting bound under ONE root (IRI, blank node sorting before / after the nodes cut loose),
+//!    forks at and around the bound, deep branches under different roots and in different graphs, chains cut several times.
+//!    ORACLE: the round trip.  Coq: `plan_d_ok max_depth` (C04/Deep.v) = the plan AND the write phase with its cuts and re-scans
+//!    (labels = planned + cut loose, `(`, `[`), the model's accounting, and Model.plan_ok as well when nothing is cut.
+//!  * prefix (indices 3_000_000 + k: a directed list of near misses and of code points on both sides of every boundary of PN_CHARS_BASE /
+//!    PN_CHARS, then n/8 random strings): ONE candidate prefix given to one of sophia's public constructors of `Prefix` (Prefix::new on
+//!    Box<str> / &str / String, serde, is_valid_prefix, new_unchecked).  Coq: `prefix_ctor_ok` = the model of is_valid_prefix over the
+//!    REGENERATED regular expression against what the constructor answered.  ORACLE: an ACCEPTED prefix is put in the prefix map
+//!    (TurtleConfig::with_own_prefix_map / with_prefix_map) of the pretty writer on a dataset using its namespace: it must be a
+//!    PN_PREFIX? of the grammar (decided here independently) and the document must parse back to an isomorphic dataset.
+//!    (Not applied to prefixes with two consecutive dots: rio_turtle's parser refuses them although production [167s] has them.)
 //!
 //!  `--witness` runs the recorded witnesses of the defects found on the original tree and exits.
 //!  `--probe-lex HEX` prints what the implementation does with the lexical form (UTF-8 bytes in hex).
@@ -162,16 +177,38 @@ struct Case {
     indent: String,
     pretty: bool,
     trig: bool,
+    /// how the prefixes of the prefix map are constructed (see CTORS; 0 = Prefix::new_unchecked, as before)
+    ctor: usize,
 }
 
 /// None = the configuration is refused (with_indentation panics on a string that is not white space)
 fn config_of(c: &Case) -> Option<TurtleConfig> {
-    let pm: Vec<PrefixMapPair> = c.prefixes.iter()
-        .map(|(p, n)| (Prefix::new_unchecked(p.clone().into_boxed_str()), Iri::new_unchecked(n.clone().into_boxed_str())))
-        .collect();
     let (pretty, indent) = (c.pretty, c.indent.clone());
+    if c.ctor == 2 {
+        // borrowed prefixes and namespaces, copied by with_prefix_map (PrefixMap::to_vec)
+        let mut pm: Vec<(Prefix<&str>, Iri<&str>)> = vec![];
+        for (p, n) in &c.prefixes { pm.push((Prefix::new(p.as_str()).ok()?, Iri::new(n.as_str()).ok()?)); }
+        return quietly(move || TurtleConfig::new().with_pretty(pretty).with_prefix_map(&pm[..]).with_indentation(indent)).ok();
+    }
+    let mut pm: Vec<PrefixMapPair> = vec![];
+    for (p, n) in &c.prefixes { pm.push((make_prefix(c.ctor, p)?, Iri::new_unchecked(n.clone().into_boxed_str()))); }
     quietly(move || TurtleConfig::new().with_pretty(pretty).with_own_prefix_map(pm).with_indentation(indent)).ok()
 }
+/// the ways a prefix string becomes a `Prefix` through sophia's public API
+const CTORS: &[&str] = &["Prefix::new_unchecked(Box<str>) [validates in this build profile]", "Prefix::new(Box<str>)", "Prefix::new(&str) + TurtleConfig::with_prefix_map", "serde: Prefix<String> deserialised from a JSON string",
+    "Prefix::new(String)", "is_valid_prefix(&str), then Prefix::new_unchecked"];
+/// None = the constructor refuses the string
+fn make_prefix(ctor: usize, p: &str) -> Option<Prefix<Box<str>>> {
+    match ctor {
+        0 => { let p = p.to_string(); quietly(move || Prefix::new_unchecked(p.into_boxed_str())).ok() }
+        1 | 2 => Prefix::new(Box::<str>::from(p)).ok(),
+        3 => { let json = serde_json::to_string(p).ok()?; let x: Prefix<String> = serde_json::from_str(&json).ok()?; Some(x.map_unchecked(String::into_boxed_str)) }
+        4 => Prefix::new(p.to_string()).ok().map(|x| x.map_unchecked(String::into_boxed_str)),
+        _ => if sophia_api::prefix::is_valid_prefix(p) { let p = p.to_string(); quietly(move || Prefix::new_unchecked(p.into_boxed_str())).ok() } else { None },
+    }
+}
+/// does the constructor accept the string (ctor 2: Prefix::new on a borrowed str)
+fn ctor_accepts(ctor: usize, p: &str) -> bool { if ctor == 2 { Prefix::new(p).is_ok() } else { make_prefix(ctor, p).is_some() } }
 const REFUSED: &str = "configuration refused";
 
 /// what the implementation writes (Err = it panicked or returned an error)
@@ -516,7 +553,7 @@ fn gen_shape_case(r: Rng) -> Case {
     let mut seen = BTreeSet::new();
     g.quads.retain(|q| seen.insert((q.0.as_ref().map(canon), [canon(&q.1[0]), canon(&q.1[1]), canon(&q.1[2])])));
     g.shapes.sort();
-    Case { shapes: g.shapes, quads: g.quads, prefixes, indent, pretty, trig }
+    Case { shapes: g.shapes, quads: g.quads, prefixes, indent, pretty, trig, ctor: 0 }
 }
 
 // ---------------------------------------------------------------- reading the plan off the output
@@ -530,7 +567,7 @@ fn scan(text: &str) -> (BTreeSet<String>, usize, usize, usize) {
         if c == '"' { i += 1; while i < cs.len() && cs[i] != '"' { if cs[i] == '\\' { i += 1; } i += 1; } i += 1; }
         else if c == '<' && i + 1 < cs.len() && cs[i + 1] == '<' { i += 2; }
         else if c == '<' { while i < cs.len() && cs[i] != '>' { i += 1; } i += 1; }
-        else if c == '_' && i + 1 < cs.len() && cs[i + 1] == ':' && (i == 0 || !(cs[i - 1].is_alphanumeric() || cs[i - 1] == ':' || cs[i - 1] == '_')) {
+        else if c == '_' && i + 1 < cs.len() && cs[i + 1] == ':' && (i == 0 || !(cs[i - 1].is_alphanumeric() || cs[i - 1] == ':' || cs[i - 1] == '_' || cs[i - 1] == '.' || pn_chars(cs[i - 1]))) {   // (not the end of a prefix such as `a-_:`)
             let mut j = i + 2; let mut l = String::new();
             while j < cs.len() && cs[j].is_ascii_alphanumeric() { l.push(cs[j]); j += 1; }
             labels.insert(l); i = j;
@@ -552,7 +589,8 @@ fn intern(c: &Case) -> (Vec<ST>, BTreeMap<ST, usize>) {
     let m: BTreeMap<ST, usize> = v.iter().enumerate().map(|(i, t)| (t.clone(), i)).collect();
     (v, m)
 }
-fn coq_plan_case(c: &Case, text: &str) -> String {
+fn coq_plan_case(c: &Case, text: &str) -> String { coq_plan_case_with(c, text, "plan_ok") }
+fn coq_plan_case_with(c: &Case, text: &str, checker: &str) -> String {
     let (terms, idx) = intern(c);
     let kinds = coq_list(terms.iter().map(|t| match t.kind() {
         TermKind::BlankNode => "TB".to_string(),
@@ -567,12 +605,12 @@ fn coq_plan_case(c: &Case, text: &str) -> String {
     let (labels, colls, plists, _anons) = scan(text);
     let mut obs: Vec<usize> = labels.iter().map(|l| idx.get(&bnode(l)).copied().unwrap_or(999_999)).collect();
     obs.sort();
-    format!("plan_ok {kinds} {} {} {} {} {quads} {} {colls} {plists}", id_of("first"), id_of("rest"), id_of("nil"), id_of("type"), coq_list(obs.iter().map(|i| i.to_string())))
+    format!("{checker} {kinds} {} {} {} {} {quads} {} {colls} {plists}", id_of("first"), id_of("rest"), id_of("nil"), id_of("type"), coq_list(obs.iter().map(|i| i.to_string())))
 }
 
 fn describe(c: &Case) -> String {
-    format!("[{}] {} {} prefixes={:?} indent={:?} dataset: {}", c.shapes.join("+"), if c.trig { "TriG" } else { "Turtle" }, if c.pretty { "pretty" } else { "plain" },
-        c.prefixes, c.indent, c.quads.iter().map(show_q).collect::<Vec<_>>().join(" "))
+    format!("[{}] {} {} prefixes={:?}{} indent={:?} dataset: {}", c.shapes.join("+"), if c.trig { "TriG" } else { "Turtle" }, if c.pretty { "pretty" } else { "plain" },
+        c.prefixes, if c.ctor != 0 { format!(" (built with {})", CTORS[c.ctor]) } else { String::new() }, c.indent, c.quads.iter().map(show_q).collect::<Vec<_>>().join(" "))
 }
 
 // ---------------------------------------------------------------- the term stream
@@ -721,7 +759,7 @@ fn gen_term_case(mut r: Rng) -> TermCase {
     };
     // a blank node object is labelled only if it is referenced twice
     if pos == 2 && matches!(term, T::B(_)) { quads.push((None, [s, anchor("q"), term.clone()])); }
-    let case = Case { shapes: vec![format!("term:{class}")], quads, prefixes: pm.clone(), indent: "  ".into(), pretty: true, trig: pos == 3 || r.chance(1, 3) };
+    let case = Case { shapes: vec![format!("term:{class}")], quads, prefixes: pm.clone(), indent: "  ".into(), pretty: true, trig: pos == 3 || r.chance(1, 3), ctor: 0 };
     TermCase { pos, term, pm, class, hyps, case }
 }
 /// cut the bytes of the term out of the output: Ok((term bytes, the bytes that follow it)) or Err(what is wrong with the layout)
@@ -749,9 +787,280 @@ fn cut_term(tc: &TermCase, text: &str) -> Result<(Vec<u8>, Vec<u8>), String> {
 }
 fn coq_pm(pm: &[(String, String)]) -> String { coq_list(pm.iter().map(|(p, n)| format!("({}, {})", coq_str(p), coq_str(n)))) }
 
+// ---------------------------------------------------------------- the deep stream
+// DEEP and WIDE trees of blank nodes: the pretty writer nests `[ ... ]` (and `{| ... |}`) up to a bound, cuts deeper
+// branches loose (label + new root) and re-scans the subjects of the graph until nothing is left.  The generator does
+// not know the bound's effect: the oracle is the round trip; Coq (C04/Deep.v, `plan_d_ok`) runs the model of the plan
+// AND of the write phase with its cuts and re-scans against the labels / `(` / `[` of the output.
+const DEEP_BASE: usize = 2_000_000;
+/// lengths of chains: short ones, every length around the bound (64) and around twice the bound, long ones
+const DEEP_LENS: &[usize] = &[1, 2, 5, 30, 60, 61, 62, 63, 64, 65, 66, 67, 68, 70, 80, 100, 126, 127, 128, 129, 130, 131, 150, 200];
+const DEEP_LETTERS: &[&str] = &["a", "b", "c", "k", "m", "r", "s", "y", "z"];
+struct Deep { r: Rng, quads: Vec<Q>, shapes: Vec<String>, nb: usize, ni: usize, budget: usize, recipe: Vec<String> }
+impl Deep {
+    fn new(r: Rng, budget: usize) -> Deep { Deep { r, quads: vec![], shapes: vec![], nb: 0, ni: 0, budget, recipe: vec![] } }
+    fn shape(&mut self, s: &str) { if !self.shapes.iter().any(|x| x == s) { self.shapes.push(s.to_string()); } }
+    fn node(&mut self, letter: &str) -> T { self.nb += 1; b(&format!("{letter}{:04}", self.nb)) }
+    fn fresh_iri(&mut self) -> T { self.ni += 1; ex(&format!("n{}", self.ni)) }
+    fn add(&mut self, g: &Option<T>, s: T, p: T, o: T) { self.quads.push((g.clone(), [s, p, o])); }
+    fn leaf(&mut self) -> T { self.ni += 1; match self.r.below(3) { 0 => T::Lit(format!("v{}", self.ni), xsd("string")), 1 => T::Lit(format!("{}", self.ni), xsd("integer")), _ => ex(&format!("o{}", self.ni)) } }
+    /// `len` fresh blank nodes hanging below each other, the first one being `head`; naming 0: every node bears a distinct
+    /// literal, 1: only the last one, 2: one in seven.  Returns the nodes of the chain.
+    fn chain_from(&mut self, g: &Option<T>, head: T, len: usize, letter: &str, naming: usize) -> Vec<T> {
+        let len = len.min(self.budget).max(1);
+        self.budget -= len.min(self.budget);
+        let mut nodes = vec![head];
+        for _ in 1..len { let n = self.node(letter); nodes.push(n); }
+        for i in 0..len {
+            if i + 1 < len {
+                let p = match self.r.below(12) { 0 => ex("p"), 1 => rdf("type"), _ => ex("next") };
+                self.add(g, nodes[i].clone(), p, nodes[i + 1].clone());
+            }
+            if naming == 0 || (naming == 2 && i % 7 == 3) || i + 1 == len { let l = T::Lit(format!("{letter} {}.{i}", self.nb), xsd("string")); self.add(g, nodes[i].clone(), ex("name"), l); }
+        }
+        nodes
+    }
+    /// hang a fresh blank node below `from` in one of the ways a blank node can be nested; returns it.
+    /// how 0: object of a property; 1: item of a collection; 2: object of an annotation of a statement about `from`;
+    /// 3: item of a collection nested in a collection; 4: object of rdf:type
+    fn hang(&mut self, g: &Option<T>, from: &T, how: usize, letter: &str) -> T {
+        let h = self.node(letter);
+        match how {
+            1 | 3 => {
+                self.shape(if how == 1 { "deep:below-a-list-item" } else { "deep:below-a-nested-list-item" });
+                let n = self.r.range(1, 3); let k = self.r.below(n);
+                let cells: Vec<T> = (0..n).map(|_| self.node("l")).collect();
+                for i in 0..n {
+                    let it = if i == k {
+                        if how == 3 { let c = self.node("l"); self.add(g, c.clone(), rdf("first"), h.clone()); self.add(g, c.clone(), rdf("rest"), rdf("nil")); c } else { h.clone() }
+                    } else { self.leaf() };
+                    self.add(g, cells[i].clone(), rdf("first"), it);
+                    let rest = if i + 1 < n { cells[i + 1].clone() } else { rdf("nil") };
+                    self.add(g, cells[i].clone(), rdf("rest"), rest);
+                }
+                self.add(g, from.clone(), ex("items"), cells[0].clone());
+            }
+            2 => {
+                self.shape("deep:below-an-annotation");
+                let o = self.leaf();
+                self.add(g, from.clone(), ex("said"), o.clone());
+                self.add(g, qt(from.clone(), ex("said"), o), ex("by"), h.clone());
+            }
+            4 => { self.shape("deep:below-rdf-type"); self.add(g, from.clone(), rdf("type"), h.clone()); }
+            _ => { let p = if self.r.chance(1, 6) { ex("p") } else { ex("next") }; self.add(g, from.clone(), p, h.clone()); }
+        }
+        h
+    }
+    /// a branch below `from`: hang a head, a chain of `len` below it, and (forks) sub-branches hanging off nodes of the chain
+    fn branch(&mut self, g: &Option<T>, from: &T, how: usize, len: usize, letter: &str, naming: usize, forks: usize) {
+        let head = self.hang(g, from, how, letter);
+        let nodes = self.chain_from(g, head, len, letter, naming);
+        self.recipe.push(format!("below {} in graph {}: {} a chain of {} blank nodes {}..{}", show(from), g.as_ref().map(show).unwrap_or("(default)".into()),
+            ["as object,", "as item of a collection,", "as object of an annotation,", "as item of a collection in a collection,", "as object of rdf:type,"][how.min(4)], nodes.len(), show(&nodes[0]), show(nodes.last().unwrap())));
+        for _ in 0..forks {
+            if self.budget == 0 { break; }
+            self.shape("deep:fork");
+            // fork near the end, near the bound, or anywhere
+            let at = match self.r.below(4) { 0 => nodes.len() - 1, 1 => nodes.len().saturating_sub(2).min(62), 2 => self.r.below(nodes.len()).min(63), _ => self.r.below(nodes.len()) };
+            let (l2, how2) = (*self.r.pick(DEEP_LENS), *self.r.pick(&[0, 0, 0, 1, 2, 3]));
+            let letter2 = self.r.ps(DEEP_LETTERS);
+            let from2 = nodes[at].clone();
+            self.branch(g, &from2, how2, l2, letter2, naming, 0);
+        }
+    }
+}
+/// kind of root: 0 IRI, 1 blank node (its label sorts anywhere), 2 quoted triple that is not asserted, 3 blank node sorting first, 4 blank node sorting last,
+/// 5 blank node that is the subject of an asserted and annotated triple, 6 blank node that is the subject of a quoted triple that is not asserted
+fn deep_root(d: &mut Deep, g: &Option<T>, kind: usize) -> T {
+    match kind {
+        5 | 6 => {
+            d.shape("deep:root-is-the-subject-of-a-quoted-triple");
+            let l = d.r.ps(DEEP_LETTERS); let x = d.node(l); let (o, by) = (d.leaf(), d.leaf());
+            if kind == 5 { d.add(g, x.clone(), ex("said"), o.clone()); }
+            d.add(g, qt(x.clone(), ex("said"), o), ex("by"), by);
+            x
+        }
+        0 => d.fresh_iri(),
+        2 => { d.shape("deep:root-is-a-quoted-triple"); let (s, o) = (d.fresh_iri(), d.leaf()); qt(s, ex("p"), o) }
+        3 => { d.shape("deep:root-is-a-blank-node"); d.node("A") }
+        4 => { d.shape("deep:root-is-a-blank-node"); d.node("zz") }
+        _ => { d.shape("deep:root-is-a-blank-node"); let l = d.r.ps(DEEP_LETTERS); d.node(l) }
+    }
+}
+fn deep_finish(mut d: Deep, trig: bool, pretty: bool, r: &mut Rng) -> (Case, String) {
+    if !trig { for q in d.quads.iter_mut() { q.0 = None; } }
+    let mut seen = BTreeSet::new();
+    d.quads.retain(|q| seen.insert((q.0.as_ref().map(canon), [canon(&q.1[0]), canon(&q.1[1]), canon(&q.1[2])])));
+    d.shapes.sort();
+    let prefixes = match r.below(3) { 0 => vec![], 1 => vec![("ex".to_string(), EX.to_string())], _ => vec![("".to_string(), EX.to_string()), ("rdf".to_string(), RDF.to_string())] };
+    let indent = r.ps(&["", "", " ", "  ", "\t"]).to_string();
+    let recipe = format!("{} quads, every node of a chain bearing {}; {}", d.quads.len(), "a name / the last one only / one in seven (see replay)", d.recipe.join("; "));
+    (Case { shapes: d.shapes, quads: d.quads, prefixes, indent, pretty, trig, ctor: 0 }, recipe)
+}
+/// the directed part: every length around the bound x every way of nesting, several deep branches under one root
+/// (IRI / blank node sorting before or after the nodes cut loose), forks, several roots, several graphs
+const DEEP_HOWS: usize = 7;
+fn deep_directed_count() -> usize { 8 * DEEP_HOWS + 8 + 4 + 4 + 4 + 2 }
+fn gen_deep_directed(k: usize, mut r: Rng) -> (Case, String) {
+    let mut d = Deep::new(r.fork(1), 700);
+    let naming = r.below(3);
+    let mut k = k;
+    if k < 8 * DEEP_HOWS {
+        // one chain of 61..68 nodes, nested in each of the ways
+        let (len, how) = (61 + k / DEEP_HOWS, k % DEEP_HOWS);
+        d.shape(&format!("deep:one-chain-of-{len}"));
+        let trig = r.chance(1, 2);
+        let g = if trig && r.chance(1, 2) { Some(ex("g")) } else { None };
+        let root = deep_root(&mut d, &g, match how { 6 => 5 + (len % 2), 5 => 2, 4 => 1, _ => if r.chance(1, 3) { 1 } else { 0 } });
+        if !matches!(root, T::Tr(_)) { let l = d.leaf(); d.add(&g, root.clone(), ex("name"), l); }
+        d.branch(&g, &root, if how >= 5 { 0 } else { how }, len, r.ps(DEEP_LETTERS), naming, 0);
+        return deep_finish(d, trig, true, &mut r);
+    }
+    k -= 8 * DEEP_HOWS;
+    if k < 8 {
+        // two (or three) branches deeper than the bound under the SAME root
+        d.shape("deep:several-deep-branches-under-one-root");
+        let g = if k % 2 == 1 { Some(ex("g")) } else { None };
+        let root = deep_root(&mut d, &g, [0, 3, 4, 1][k % 4]);
+        let (l1, l2) = if k < 4 { ("a", "b") } else { ("b", "a") };
+        let l = d.leaf(); d.add(&g, root.clone(), ex("name"), l);
+        d.branch(&g, &root, 0, 80, l1, naming, 0);
+        d.branch(&g, &root, 0, 80, l2, naming, 0);
+        if k >= 6 { d.branch(&g, &root, 0, 66, "c", naming, 0); }
+        return deep_finish(d, k % 2 == 1, true, &mut r);
+    }
+    k -= 8;
+    if k < 4 {
+        // a chain forking into several long branches; forks right at the bound
+        d.shape("deep:fork");
+        let root = deep_root(&mut d, &None, if k % 2 == 0 { 0 } else { 1 });
+        let stem = [20, 62, 63, 64][k];
+        let head = d.hang(&None, &root, 0, "t");
+        let nodes = d.chain_from(&None, head, stem, "t", naming);
+        d.recipe.push(format!("below {}: a chain of {} blank nodes {}..{}", show(&root), nodes.len(), show(&nodes[0]), show(nodes.last().unwrap())));
+        let fork = nodes.last().unwrap().clone();
+        for (i, len) in [70usize, 100, 50].iter().enumerate() { d.branch(&None, &fork, 0, if stem == 20 { *len } else { 3 + i }, ["a", "b", "c"][(i + k) % 3], naming, 0); }
+        return deep_finish(d, false, true, &mut r);
+    }
+    k -= 4;
+    if k < 4 {
+        // deep branches under DIFFERENT roots (same graph)
+        d.shape("deep:deep-branches-under-different-roots");
+        let (r1, r2) = (deep_root(&mut d, &None, 0), deep_root(&mut d, &None, if k < 2 { 0 } else { 1 }));
+        let (l1, l2) = if k % 2 == 0 { ("a", "b") } else { ("b", "a") };
+        d.branch(&None, &r1, 0, 80, l1, naming, 0);
+        d.branch(&None, &r2, 0, 80, l2, naming, 0);
+        return deep_finish(d, false, true, &mut r);
+    }
+    k -= 4;
+    if k < 4 {
+        // deep branches in DIFFERENT graphs
+        d.shape("deep:deep-branches-in-different-graphs");
+        let graphs = [None, Some(ex("g1")), Some(ex("g2")), Some(b("gb"))];
+        let (ga, gb) = [(0, 1), (1, 2), (1, 3), (2, 0)][k];
+        for (g, l) in [(&graphs[ga], "a"), (&graphs[gb], "b")] {
+            let root = deep_root(&mut d, g, if k % 2 == 0 { 0 } else { 1 });
+            d.branch(g, &root, 0, 70, l, naming, 0);
+            d.branch(g, &root, 0, 66, if l == "a" { "c" } else { "A" }, naming, 0);
+        }
+        return deep_finish(d, true, true, &mut r);
+    }
+    k -= 4;
+    // one very long chain: cut several times
+    d.shape("deep:one-very-long-chain");
+    let root = deep_root(&mut d, &None, k % 2);
+    d.branch(&None, &root, 0, [150, 200][k % 2], "a", naming, 0);
+    deep_finish(d, false, true, &mut r)
+}
+fn gen_deep_random(mut r: Rng) -> (Case, String) {
+    let mut d = Deep::new(r.fork(1), 140 + r.below(160));
+    let trig = r.chance(1, 2);
+    let pretty = r.chance(7, 8);
+    let mut graphs: Vec<Option<T>> = vec![None];
+    if trig { for i in 0..r.below(3) { graphs.push(Some(if r.chance(1, 4) { b(&format!("g{i}")) } else { ex(&format!("g{i}")) })); } }
+    let naming = r.below(3);
+    let nroots = r.range(1, 3);
+    for _ in 0..nroots {
+        let g = graphs[r.below(graphs.len())].clone();
+        let root = deep_root(&mut d, &g, *r.pick(&[0, 0, 0, 1, 1, 2, 3, 4, 5, 6]));
+        if !matches!(root, T::Tr(_)) && r.chance(1, 2) { let l = d.leaf(); d.add(&g, root.clone(), ex("name"), l); }
+        let nbranches = *r.pick(&[1, 1, 2, 2, 3, 4]);
+        if nbranches > 1 { d.shape("deep:several-branches-under-one-root"); }
+        for _ in 0..nbranches {
+            let len = *r.pick(DEEP_LENS);
+            let how = *r.pick(&[0, 0, 0, 0, 1, 2, 3, 4]);
+            let forks = *r.pick(&[0, 0, 1, 2]);
+            let letter = r.ps(DEEP_LETTERS);
+            d.branch(&g, &root, how, len, letter, naming, forks);
+        }
+    }
+    if d.quads.len() > 400 { d.shape("deep:more-than-400-quads"); }
+    deep_finish(d, trig, pretty, &mut r)
+}
+
+// ---------------------------------------------------------------- the prefix stream
+// A candidate prefix is given to one of sophia's public constructors of `Prefix`.  What it answers is compared inside Coq with
+// the model of is_valid_prefix over the REGENERATED regular expression (C04/Deep.v `prefix_ctor_ok`; C04/PrefixIncl.v proves
+// that expression equal to the production PN_PREFIX of the Turtle grammar).  ORACLE: a prefix that a constructor ACCEPTS is
+// used in the prefix map of the pretty writer; the document must be valid (the prefix must be a PN_PREFIX? of the grammar,
+// decided here independently of sophia) and must parse back to an isomorphic dataset.
+const PFX_BASE: usize = 3_000_000;
+const PFX_DIRECTED: &[&str] = &["", "a", "ex", "e1", "e-1", "e_1", "e.1", "e-", "e_", "\u{e9}", "\u{e9}a", "a.b-c_d", "_", "_a", "_1", "-", "-a", "-1", "__", "--", "_-", "-_", "_a.b", "-a.b", "_x-y", "-x_y", "1", "1a", "12", "0",
+    "9z", ".", ".a", "a.", "a.b", "a..b", "a.b.", "a.b.c", "a.-", "a-.", "_.", "-.", "..", "a b", " ", " a", "a ", "a:b", ":", "a:", ":a", "A", "Z", "z9", "true", "false", "a\n", "\na", "a\t", "a%", "%41", "a/b", "a#", "a@", "@a", "[",
+    "a\u{e9}.", "\u{e9}.h\u{ea}", "A-Z_0.9", "a_", "a-", "a__-", "_\u{e9}", "-\u{e9}", "\u{e9}_", "\u{e9}-", "1\u{e9}", "a\\", "\\a", "a,b", "a;b", "a~", "a!", "a$", "a&", "a'", "a(", "a)", "a*", "a+", "+a", "a=", "a?", "a<", "a>", "a\"",
+    "aaaaaaaaaaaaaaaaaaaaaaaaaaaaaaaaaaaaaaaaaaaaaaaaaaaaaaaaaaaaaaaaaaaaaaaaaaaaaaaaaaaaaaaaaaaaaaaaaaaaaaaaaaaaaaaaaaaaaaaaaaaaaaaaaaaaaaaaa", "a.a.a.a.a.a.a.a.a.a.a.a.a.a.a.a.a.a.a.a.a.a.a.a.a.a.a.a.a.a.a.a", "_________", "---------", "a-_", "a._", "a\u{b7}_", "a_-_", "b-_.c_"];
+/// code points on both sides of every boundary of PN_CHARS_BASE / PN_CHARS (and a few in the middle of the ranges)
+const PFX_BOUNDS: &[u32] = &[0x2c, 0x2d, 0x2e, 0x2f, 0x30, 0x39, 0x3a, 0x40, 0x41, 0x5a, 0x5b, 0x5e, 0x5f, 0x60, 0x61, 0x7a, 0x7b, 0x7f, 0x80, 0xa0, 0xb6, 0xb7, 0xb8, 0xbf, 0xc0, 0xd6, 0xd7, 0xd8, 0xf6, 0xf7, 0xf8, 0x2ff, 0x300, 0x36f, 0x370, 0x37d,
+    0x37e, 0x37f, 0x1fff, 0x2000, 0x200b, 0x200c, 0x200d, 0x200e, 0x203e, 0x203f, 0x2040, 0x2041, 0x206f, 0x2070, 0x218f, 0x2190, 0x2bff, 0x2c00, 0x2fef, 0x2ff0, 0x3000, 0x3001, 0x4e00, 0xd7ff, 0xe000, 0xf8ff, 0xf900, 0xfdcf, 0xfdd0,
+    0xfdef, 0xfdf0, 0xfffd, 0xfffe, 0xffff, 0x10000, 0x1f600, 0xeffff, 0xf0000, 0x10ffff];
+fn pfx_directed_count() -> usize { PFX_DIRECTED.len() + 4 * PFX_BOUNDS.len() }
+fn gen_pfx_candidate(k: Option<usize>, r: &mut Rng) -> String {
+    if let Some(k) = k {
+        if k < PFX_DIRECTED.len() { return PFX_DIRECTED[k].to_string(); }
+        let k = k - PFX_DIRECTED.len();
+        let c = char::from_u32(PFX_BOUNDS[k / 4]).unwrap();
+        return match k % 4 { 0 => format!("{c}"), 1 => format!("a{c}"), 2 => format!("{c}a"), _ => format!("a{c}b") };
+    }
+    let ascii: Vec<char> = "aAzZ09_-.: \u{e9}".chars().collect();
+    let n = *r.pick(&[1, 1, 2, 2, 2, 3, 3, 4, 6]);
+    (0..n).map(|_| if r.chance(1, 4) { char::from_u32(*r.pick(PFX_BOUNDS)).unwrap() } else { *r.pick(&ascii) }).collect()
+}
+struct PfxCase { cand: String, ctor: usize, accepted: bool, case: Option<Case> }
+fn gen_pfx_case(k: Option<usize>, mut r: Rng) -> PfxCase {
+    let cand = gen_pfx_candidate(k, &mut r);
+    let ctor = match k { Some(k) => 1 + k % 5, None => r.below(CTORS.len()) };
+    let accepted = ctor_accepts(ctor, &cand);
+    if !accepted { return PfxCase { cand, ctor, accepted, case: None }; }
+    // the accepted prefix in a prefix map (alone, or with prefixes it is a prefix of / that extend it), on a dataset that uses its namespace
+    let ns = r.ps(&[EX, EX, "http://example.org/", "urn:x:", "http://example.org/ns/sub#"]).to_string();
+    let mut prefixes = vec![(cand.clone(), ns.clone())];
+    for (p, n) in [("a", "http://example.org/other/"), ("", "http://example.org/"), ("a.b", "http://example.org/ns/su"), ("ex", "http://example.org/ns/sub/")] {
+        if r.chance(1, 4) && p != cand { if r.chance(1, 2) { prefixes.push((p.to_string(), n.to_string())); } else { prefixes.insert(0, (p.to_string(), n.to_string())); } }
+    }
+    let mut case = if r.chance(1, 2) {
+        let mut c = gen_shape_case(r.fork(2));
+        c.shapes.insert(0, "prefix:accepted".into());
+        c
+    } else {
+        let n = |l: &str| T::Iri(format!("{ns}{l}"));
+        let trig = r.chance(1, 2);
+        let g = if trig && r.chance(2, 3) { Some(n("g")) } else { None };
+        let mut quads = vec![(g.clone(), [n("s"), n("p"), n("o")]), (g.clone(), [n("s"), n("q"), T::Lit("lit".into(), format!("{ns}dt"))]), (g.clone(), [b("x"), n("p"), T::Lit("12".into(), xsd("integer"))]),
+            (g.clone(), [n("s"), rdf("type"), n("C")]), (None, [n(""), n("p"), qt(n("a"), n("b"), b("y"))])];
+        if !trig { for q in quads.iter_mut() { q.0 = None; } }
+        let mut seen = BTreeSet::new();
+        quads.retain(|q| seen.insert(q.clone()));
+        Case { shapes: vec!["prefix:accepted".into()], quads, prefixes: vec![], indent: "  ".into(), pretty: true, trig, ctor: 0 }
+    };
+    case.prefixes = prefixes;
+    case.pretty = true;
+    case.ctor = ctor;
+    PfxCase { cand, ctor, accepted, case: Some(case) }
+}
+
 // ---------------------------------------------------------------- recorded witnesses
 fn witnesses() -> Vec<(&'static str, Case)> {
-    let base = |shapes: &[&str], quads: Vec<Q>, trig: bool| Case { shapes: shapes.iter().map(|s| s.to_string()).collect(), quads, prefixes: vec![("ex".into(), EX.into())], indent: "  ".into(), pretty: true, trig };
+    let base = |shapes: &[&str], quads: Vec<Q>, trig: bool| Case { shapes: shapes.iter().map(|s| s.to_string()).collect(), quads, prefixes: vec![("ex".into(), EX.into())], indent: "  ".into(), pretty: true, trig, ctor: 0 };
     let d = |l: &str, dt: &str| T::Lit(l.into(), xsd(dt));
     vec![
         ("row 1: \"12\"^^xsd:decimal is written bare and re-read as xsd:integer", base(&["literals"], vec![(None, [ex("s"), ex("p"), d("12", "decimal")])], false)),
@@ -794,7 +1103,7 @@ fn main() {
         // pre-fix only: rows 3 + 4 together make build_lists push items forever (stopped by the memory guard)
         let c = Case { shapes: vec!["list-two-rest".into(), "self-loop".into()], quads: vec![
             (None, [b("b"), rdf("first"), b("a")]), (None, [b("b"), rdf("rest"), rdf("nil")]), (None, [b("b"), rdf("rest"), b("b")])],
-            prefixes: vec![], indent: "  ".into(), pretty: true, trig: false };
+            prefixes: vec![], indent: "  ".into(), pretty: true, trig: false, ctor: 0 };
         CURRENT_CASE.store(0, Ordering::Relaxed);
         CASE_START_MS.store(now_ms(), Ordering::Relaxed);
         println!("{}", match oracle(&c) { Ok(t) => format!("round-trips:\n{t}"), Err(e) => format!("FAILS: {e}") });
@@ -802,7 +1111,7 @@ fn main() {
     }
     if a.rest.iter().any(|x| x == "--witness-terms") {
         // single terms built with sophia's CHECKED constructors whose pretty Turtle is not read back
-        let one = |o: T, pm: Vec<(&str, &str)>| Case { shapes: vec!["term".into()], quads: vec![(None, [anchor("s"), anchor("p"), o])], prefixes: pm.into_iter().map(|(p, n)| (p.to_string(), n.to_string())).collect(), indent: "  ".into(), pretty: true, trig: false };
+        let one = |o: T, pm: Vec<(&str, &str)>| Case { shapes: vec!["term".into()], quads: vec![(None, [anchor("s"), anchor("p"), o])], prefixes: pm.into_iter().map(|(p, n)| (p.to_string(), n.to_string())).collect(), indent: "  ".into(), pretty: true, trig: false, ctor: 0 };
         for tag in ["a1", "en1-x", "e", "abcdefghi", "a-1", "en"] {
             let checked = sophia_api::term::LanguageTag::new(tag).is_ok();
             let c = one(T::Lang("chat".into(), tag.into()), vec![]);
@@ -826,7 +1135,7 @@ fn main() {
         let bytes: Vec<u8> = (0..hex.len() / 2).map(|k| u8::from_str_radix(&hex[2 * k..2 * k + 2], 16).unwrap()).collect();
         let lex = String::from_utf8(bytes).unwrap();
         for dt in ["integer", "decimal", "double", "boolean"] {
-            let c = Case { shapes: vec!["literals".into()], quads: vec![(None, [T::Iri("urn:s".into()), T::Iri("urn:p".into()), T::Lit(lex.clone(), xsd(dt))])], prefixes: vec![], indent: "  ".into(), pretty: true, trig: false };
+            let c = Case { shapes: vec!["literals".into()], quads: vec![(None, [T::Iri("urn:s".into()), T::Iri("urn:p".into()), T::Lit(lex.clone(), xsd(dt))])], prefixes: vec![], indent: "  ".into(), pretty: true, trig: false, ctor: 0 };
             println!("{lex:?}^^xsd:{dt}: {}", match oracle(&c) { Ok(t) => format!("round-trips; written {}", if t.contains('"') { "quoted" } else { "BARE" }), Err(e) => format!("FAILS: {e}") });
         }
         return;
@@ -837,11 +1146,85 @@ non-trivial = the dataset has a blank node, a quoted triple, a list, a numeric/b
     let base = Rng::new(a.seed);
     let mut cases = vec![];
     let mut seen = std::collections::HashSet::new();
-    let range: Vec<usize> = match a.only { Some(i) => vec![i], None => (0..a.n).chain(TERM_BASE..TERM_BASE + a.n / 4).collect() };
+    let deep_n = deep_directed_count() + (a.n / 80).min(300);
+    let pfx_n = pfx_directed_count() + (a.n / 8).min(3000);
+    let range: Vec<usize> = match a.only { Some(i) => vec![i], None => (0..a.n).chain(TERM_BASE..TERM_BASE + a.n / 4).chain(DEEP_BASE..DEEP_BASE + deep_n).chain(PFX_BASE..PFX_BASE + pfx_n).collect() };
+    let mut last_idx = 0usize;
     let clip = |x: &str| -> String { if x.chars().count() > 1200 { format!("{} [...]", x.chars().take(1200).collect::<String>()) } else { x.to_string() } };
+    let mut stream_ms = [0usize; 4];
+    let mut last_ms = now_ms();
     for idx in range {
+        let t = now_ms();
+        stream_ms[if last_idx >= PFX_BASE { 3 } else if last_idx >= DEEP_BASE { 2 } else if last_idx >= TERM_BASE { 1 } else { 0 }] += t - last_ms;
+        last_ms = t; last_idx = idx;
         CURRENT_CASE.store(idx, Ordering::Relaxed);
         CASE_START_MS.store(now_ms(), Ordering::Relaxed);
+        if idx >= PFX_BASE {
+            // ---- the prefix stream
+            let k = idx - PFX_BASE;
+            let pc = gen_pfx_case(if k < pfx_directed_count() { Some(k) } else { None }, base.fork(idx as u64));
+            let grammar = turtle_prefix_ok(&pc.cand);
+            let desc = format!("[prefix] candidate prefix {:?} (code points {:x?}) given to {}: {}{}", pc.cand, pc.cand.chars().map(|c| c as u32).collect::<Vec<_>>(), CTORS[pc.ctor],
+                if pc.accepted { "ACCEPTED" } else { "refused" }, match &pc.case { Some(c) => format!("; used in: {}", describe(c)), None => String::new() });
+            sum.bump(&format!("prefix:{}:{}", if pc.accepted { "accepted" } else { "refused" }, if grammar { "PN_PREFIX?" } else { "not-PN_PREFIX?" }));
+            sum.bump(&format!("prefix-ctor:{}", CTORS[pc.ctor]));
+            sum.evaluations += 1;
+            if seen.insert(format!("[prefix] {:?} {}", pc.cand, pc.ctor)) { sum.distinct_nontrivial += 1; }
+            if k % 97 == 5 && sum.samples.len() < 14 { sum.samples.push(format!("case {idx}: {}", clip(&desc))); }
+            let mut body = format!("prefix_ctor_ok {} {}", coq_str(&pc.cand), coq_bool(pc.accepted));
+            let mut fail: Option<String> = None;
+            let mut shown = String::new();
+            // KNOWN GAP of sophia's parser (rio_turtle 0.8.6, parse_pn_prefix): a '.' that is followed by another '.' ends the prefix, so
+            // a PN_PREFIX with two consecutive dots (e.g. `a..b`, valid by production [167s]) is written by the pretty writer
+            // and refused by sophia's own Turtle/TriG parsers.  The oracle is not applied to these (recorded in the distribution).
+            let rio_gap = pc.cand.contains("..");
+            if let (Some(c), true) = (&pc.case, rio_gap) {
+                // reported under a stable class tag, listed in known_findings.json (finding, not an alarm)
+                match oracle(c) {
+                    Ok(_) => sum.bump("prefix:PN_PREFIX-with-consecutive-dots:sophia-reads-it-back"),
+                    Err(e) => { sum.bump("prefix:PN_PREFIX-with-consecutive-dots:sophia-rejects-its-own-output");
+                        fail = Some(format!("[prefix-with-consecutive-dots-rejected-by-parser] the prefix {:?} (a valid PN_PREFIX, accepted by Prefix::new) is written in a PREFIX line that sophia's own Turtle/TriG parser refuses: {}", pc.cand, clip(&e))); }
+                }
+            } else if let Some(c) = &pc.case {
+                match oracle(c) {
+                    Err(e) => fail = Some(e),
+                    Ok(text) => {
+                        if text != REFUSED && c.shapes.len() > 1 { body.push_str(&format!(" && {}", coq_plan_case_with(c, &text, "plan_d_ok max_depth"))); }
+                        if text == REFUSED { sum.bump("prefix:accepted-but-configuration-refused"); }
+                        else if !grammar { fail = Some(format!("a prefix accepted by the constructor is not a PN_PREFIX? of the Turtle grammar, so the document is not valid Turtle/TriG although sophia's parser reads it; output:\n{text}")); }
+                        shown = text;
+                    }
+                }
+            }
+            cases.push((idx, body));
+            if a.only.is_some() { println!("CASE {idx}: {desc}\n=> {}", match &fail { None => format!("ok; output:\n{shown}"), Some(e) => format!("FAILS: {e}") }); }
+            if let Some(e) = fail { sum.oracle_failures.push((idx.to_string(), format!("shape classes [prefix:accepted-by-a-checked-constructor]: {}\ncase: {}", clip(&e), clip(&desc)))); }
+            continue;
+        }
+        if idx >= DEEP_BASE {
+            // ---- the deep stream
+            let k = idx - DEEP_BASE;
+            let (c, recipe) = if k < deep_directed_count() { gen_deep_directed(k, base.fork(idx as u64)) } else { gen_deep_random(base.fork(idx as u64)) };
+            let desc = format!("[{}] {} {} prefixes={:?} indent={:?} dataset: {}", c.shapes.join("+"), if c.trig { "TriG" } else { "Turtle" }, if c.pretty { "pretty" } else { "plain" }, c.prefixes, c.indent, recipe);
+            let res = oracle(&c);
+            if a.only.is_some() { println!("CASE {idx}: {desc}\nquads: {}\n=> {}", c.quads.iter().map(show_q).collect::<Vec<_>>().join(" "), match &res { Ok(t) => format!("round-trips; output:\n{t}"), Err(e) => format!("FAILS: {e}") }); }
+            if let Err(e) = &res { sum.oracle_failures.push((idx.to_string(), format!("shape classes [{}]: {}\ncase: {}", c.shapes.join("+"), clip(e), clip(&desc)))); }
+            for sh in &c.shapes { sum.bump(&format!("shape:{sh}")); }
+            sum.bump(if c.pretty { "deep-mode:pretty" } else { "deep-mode:plain" });
+            sum.bump(if c.trig { "deep-syntax:trig" } else { "deep-syntax:turtle" });
+            sum.bump(&format!("deep-quads:{}", match c.quads.len() { 0..=150 => "<=150", 151..=300 => "151-300", 301..=500 => "301-500", _ => ">500" }));
+            if seen.insert(desc.clone()) { sum.distinct_nontrivial += 1; }
+            if k % 23 == 3 && sum.samples.len() < 12 { sum.samples.push(format!("case {idx}: {}", clip(&desc))); }
+            sum.evaluations += 1;
+            if let Ok(text) = &res {
+                if text != REFUSED && c.pretty {
+                    let (labels, _, _, _) = scan(text);
+                    sum.bump(&format!("deep-labels-in-output:{}", match labels.len() { 0 => "0", 1 => "1", 2 => "2", 3..=5 => "3-5", _ => ">5" }));
+                    cases.push((idx, coq_plan_case_with(&c, text, "plan_d_ok max_depth")));
+                }
+            }
+            continue;
+        }
         if idx >= TERM_BASE {
             // ---- the term stream
             let tc = gen_term_case(base.fork(idx as u64));
@@ -897,11 +1280,11 @@ non-trivial = the dataset has a blank node, a quoted triple, a list, a numeric/b
             (gen_shape_case(r), None)
         } else if stream == 6 {
             let (l, _) = gen_literal(&mut r);
-            let c = Case { shapes: vec!["single-literal".into()], quads: vec![(None, [T::Iri("urn:s".into()), T::Iri("urn:p".into()), l])], prefixes: gen_prefixes(&mut r), indent: gen_indent(&mut r), pretty: true, trig: r.chance(1, 2) };
+            let c = Case { shapes: vec!["single-literal".into()], quads: vec![(None, [T::Iri("urn:s".into()), T::Iri("urn:p".into()), l])], prefixes: gen_prefixes(&mut r), indent: gen_indent(&mut r), pretty: true, trig: r.chance(1, 2), ctor: 0 };
             (c, None)
         } else {
             let o = gen_iri(&mut r);
-            let c = Case { shapes: vec!["single-iri".into()], quads: vec![(None, [T::Iri("urn:s".into()), T::Iri("urn:p".into()), T::Iri(o)])], prefixes: gen_prefixes(&mut r), indent: "  ".into(), pretty: true, trig: r.chance(1, 2) };
+            let c = Case { shapes: vec!["single-iri".into()], quads: vec![(None, [T::Iri("urn:s".into()), T::Iri("urn:p".into()), T::Iri(o)])], prefixes: gen_prefixes(&mut r), indent: "  ".into(), pretty: true, trig: r.chance(1, 2), ctor: 0 };
             (c, None)
         };
         let _ = coq;
@@ -943,8 +1326,10 @@ non-trivial = the dataset has a blank node, a quoted triple, a list, a numeric/b
         }
     }
     CASE_START_MS.store(0, Ordering::Relaxed);   // the watchdog only times the implementation
+    stream_ms[if last_idx >= PFX_BASE { 3 } else if last_idx >= DEEP_BASE { 2 } else if last_idx >= TERM_BASE { 1 } else { 0 }] += now_ms() - last_ms;
+    sum.extra.push(("stream_ms(shape,term,deep,prefix)".into(), format!("{:?}", stream_ms)));
     if a.only.is_none() {
-        let header = "From Sophia.Common Require Import Term.\nFrom Sophia.C04 Require Import Model TermRead TermText.\nFrom Sophia.C09 Require Model.\nDefinition absf := Sophia.C09.Model.iri_new_ok.\n";
+        let header = "From Sophia.Common Require Import Term.\nFrom Sophia.C04 Require Import Model Deep TermRead TermText.\nFrom Sophia.C09 Require Model.\nDefinition absf := Sophia.C09.Model.iri_new_ok.\n";
         sum.shards = write_shards(&a.out, header, &cases, a.shards);
         sum.extra.push(("coq_cases".into(), cases.len().to_string()));
         std::fs::write(format!("{}/summary.json", a.out), sum.to_json()).unwrap();
